@@ -17,13 +17,13 @@ PKGS=$(grep '^+++ b/' $OUT/patch.diff | sed 's#+++ b/##' | xargs -n1 dirname | s
 echo "== tests: $TESTS ; touched pkgs: $PKGS"
 git apply $OUT/patch.diff || { echo "patch does not apply"; exit 2; }
 go build ./... || { echo "BUILD FAILS with patch"; git checkout -q -- .; exit 1; }
-cp $DEMO $WT/$DEMODIR/
+mkdir -p $WT/$DEMODIR; cp $DEMO $WT/$DEMODIR/
 go test -vet=off -count=1 -run "^($TESTS)\$" ./$DEMODIR > /tmp/seed-$ID-$X-with.log 2>&1; WITH=$?
 git clean -fdq
 EXTRA=""; case "$PKGS" in *cmd/pdfcpu*) EXTRA="./cmd/...";; esac
 go test -vet=off -count=1 $PKGS $EXTRA > /tmp/seed-$ID-$X-pkgs.log 2>&1; PK=$?
 git checkout -q -- . ; git clean -fdq
-cp $DEMO $WT/$DEMODIR/
+mkdir -p $WT/$DEMODIR; cp $DEMO $WT/$DEMODIR/
 go test -vet=off -count=1 -run "^($TESTS)\$" ./$DEMODIR > /tmp/seed-$ID-$X-without.log 2>&1; WITHOUT=$?
 git checkout -q -- . ; git clean -fdq
 echo "demo with patch exit=$WITH (want !=0); without exit=$WITHOUT (want 0); touched-package tests with patch exit=$PK"
